@@ -357,6 +357,14 @@ func (r *resolver) Resolve(ctx context.Context, vk resolve.VersionKey) (*resolve
 					break
 				}
 				parent.protected[node.pkg] = true
+				if alias != "" {
+					// The node is looked up by its alias: reserve that
+					// name too, or a later install could shadow it.
+					if parent.aliasProtected == nil {
+						parent.aliasProtected = make(map[string]bool)
+					}
+					parent.aliasProtected[alias] = true
+				}
 				parent = parent.parent
 			}
 			// If the parent and the installed version are from the same
